@@ -42,7 +42,7 @@ TraceInit ==
 \* worker begins: the thread's table must hold exactly what the model says it holds
 TraceTake ==
     /\ HasEv /\ E.e = "begin" /\ E.th \in 1..threads
-    /\ Take(E.th) /\ worker'[E.th].t = E.t
+    /\ Take(E.th, E.t)
     /\ E.absent = (tdb[E.th] = Absent)
     /\ (~E.absent => SetOf(E.dirty) = tdb[E.th])
     /\ (E.shared = 0) = (cfgShared = {})
